@@ -895,23 +895,25 @@ package avro
 //@   loop 2 let hd0 := hD(p), hl0 := hL(p), hc0 := hC(p)
 //@   loop 2 apply sub_range_disjoint(uint64(uintptr(p)), 24, hd0, uint64(hc0 * sz), uint64(hl0 * sz), uint64(sz)) when i < count && sz > 0
 //@   loop 2 apply sub_range_disjoint(uint64(uintptr(p)), 24, hd0, uint64(hc0 * sz), uint64(hl0 * sz), uint64((hc0 - hl0) * sz)) when i < count && sz > 0
-//@   loop 2 apply sub_range_disjoint(uint64(uintptr(p)), 24, hd0, uint64(hc0 * sz), uint64((hl0 + 1) * sz), uint64((hc0 - hl0 - 1) * sz)) when i < count && sz > 0
-//@   loop 2 apply range_split(hd0 + uint64(hl0 * sz), uint64(sz), hd0 + uint64((hl0 + 1) * sz), uint64((hc0 - hl0 - 1) * sz), uint64((hc0 - hl0) * sz)) when i < count && sz > 0
-//@   loop 2 apply range_after(hd0 + uint64(hl0) * uint64(itemSize), uint64(dsz(rc.itemCodec)), hd0 + uint64((hl0 + 1) * sz), uint64((hc0 - hl0 - 1) * sz)) when i < count && sz > 0
+//@   loop 2 apply sub_range_disjoint(uint64(uintptr(p)), 24, hd0, uint64(hc0 * sz), uint64((hl0 + 1) * sz), uint64((hc0 - (hl0 + 1)) * sz)) when i < count && sz > 0
+//@   loop 2 apply range_split(hd0 + uint64(hl0 * sz), uint64(sz), hd0 + uint64((hl0 + 1) * sz), uint64((hc0 - (hl0 + 1)) * sz), uint64((hc0 - hl0) * sz)) when i < count && sz > 0
+//@   loop 2 apply range_after(hd0 + uint64(hl0) * uint64(itemSize), uint64(dsz(rc.itemCodec)), hd0 + uint64((hl0 + 1) * sz), uint64((hc0 - (hl0 + 1)) * sz)) when i < count && sz > 0
 //@   loop 2 apply sub_range_in(hd0, uint64(hc0 * sz), uint64(hl0) * uint64(itemSize), uint64(dsz(rc.itemCodec))) when i < count && sz > 0
-//@   loop 2 apply sub_range_in(hd0, uint64(hc0 * sz), uint64((hl0 + 1) * sz), uint64((hc0 - hl0 - 1) * sz)) when i < count && sz > 0
+//@   loop 2 apply sub_range_in(hd0, uint64(hc0 * sz), uint64((hl0 + 1) * sz), uint64((hc0 - (hl0 + 1)) * sz)) when i < count && sz > 0
 //@   loop 2 apply sub_range_in(hd0, uint64(hc0 * sz), uint64(hl0 * sz), uint64((hc0 - hl0) * sz)) when i < count && sz > 0
 //@   loop 2 uses umul_add(hl0, hc0 - hl0, sz)
 //@   loop 2 uses umul_mono(1, hc0 - hl0, sz)
-//@   loop 2 uses umul_add(hl0 + 1, hc0 - hl0 - 1, sz)
-//@   loop 2 uses umul_add(1, hc0 - hl0 - 1, sz)
-//@   loop 2 uses umul_mono(0, hc0 - hl0 - 1, sz)
+//@   loop 2 uses umul_add(hl0 + 1, hc0 - (hl0 + 1), sz)
+//@   loop 2 uses umul_add(1, hc0 - (hl0 + 1), sz)
+//@   loop 2 uses umul_mono(0, hc0 - (hl0 + 1), sz)
 //     C06 (allocation proportional to the input): the block is allocated before any item is read; the bytes
 //     requested must be bounded by a constant multiple of the input length
 //@   after resizeSlice#1 check [C06] int(count) * sz <= 4096 * len(b0)
 //@   after Read#1 assert hD(p) == hd0 && hL(p) == hl0 && hC(p) == hc0
-//@   after Read#1 assert zeroed(uintptr(hd0) + uintptr((hl0 + 1) * sz), (hc0 - hl0 - 1) * sz)
+//@   after Read#1 assert zeroed(uintptr(hd0) + uintptr((hl0 + 1) * sz), (hc0 - (hl0 + 1)) * sz)
 //@   after Read#1 apply sub_range_disjoint(uint64(uintptr(p)), 24, hD(p), uint64(hC(p) * sz), uint64((hL(p) + 1) * sz), uint64((hC(p) - (hL(p) + 1)) * sz)) when sz > 0
+//     at the back edge the header is the snapshot with the length advanced by one
+//@   loop 2 step assert hD(p) == hd0 && hL(p) == hl0 + 1 && hC(p) == hc0
 
 //@ func (*arrayCodec).Skip
 //@   props C06
